@@ -438,6 +438,9 @@ func (g *Gen) externalWrites(fn *ssa.Function, ws *WriteSet) {
 		ws.Names[n] = true
 		ws.Names[seq] = true
 		ws.Names[out] = true
+		tn, tseq := marshalTryHeaps(g)
+		ws.Names[tn] = true
+		ws.Names[tseq] = true
 	case "os.MkdirAll", "os.Create", "archive/zip.NewWriter", "(*archive/zip.Writer).Create", "(*archive/zip.Writer).Close", "(*os.File).Close":
 		fail, open, count, zdom, zdata, zentry := ioHeaps(g)
 		for _, h := range []string{fail, open, count, zdom, zdata, zentry} {
